@@ -13,6 +13,54 @@ unsafe extern "C" {
     fn write(fd: i32, buf: *const u8, n: usize) -> isize;
     fn open(path: *const i8, flags: i32, mode: u32) -> i32;
     fn _exit(code: i32) -> !;
+    fn pthread_self() -> usize;
+    fn pthread_kill(thread: usize, sig: i32) -> i32;
+}
+
+/// Hang watchdog: an execution (one history replayed on a fresh arena) takes micro- to milliseconds. If a
+/// worker is still inside the same execution after `HANG_LIMIT_SECS`, a call into the subject does not
+/// return; the watchdog sends that worker SIGUSR1, whose handler writes the history it is executing
+/// (like a crash) and ends the process. The driver replays the history under a timeout.
+pub const HANG_LIMIT_SECS: u64 = 120;
+pub const SIG_HANG: i32 = 10;
+type Slot = std::sync::Arc<std::sync::atomic::AtomicU64>;
+static WORKERS: std::sync::Mutex<Vec<(usize, Slot)>> = std::sync::Mutex::new(Vec::new());
+static T0: OnceLock<std::time::Instant> = OnceLock::new();
+thread_local! { static SLOT: std::cell::OnceCell<Slot> = const { std::cell::OnceCell::new() }; }
+fn now_ms() -> u64 {
+    T0.get_or_init(std::time::Instant::now).elapsed().as_millis() as u64 + 1
+}
+fn slot_set(v: u64) {
+    let _ = SLOT.try_with(|s| {
+        let slot = s.get_or_init(|| {
+            let slot: Slot = Default::default();
+            WORKERS.lock().unwrap().push((unsafe { pthread_self() }, slot.clone()));
+            slot
+        });
+        slot.store(v, std::sync::atomic::Ordering::SeqCst);
+    });
+}
+/// The current execution of this thread is over.
+pub fn exec_end() {
+    slot_set(0);
+}
+fn start_watchdog() {
+    std::thread::spawn(|| {
+        loop {
+            std::thread::sleep(std::time::Duration::from_millis(1000));
+            let now = now_ms();
+            let ws = WORKERS.lock().unwrap();
+            for (tid, slot) in ws.iter() {
+                let st = slot.load(std::sync::atomic::Ordering::SeqCst);
+                if st != 0 && now.saturating_sub(st) > HANG_LIMIT_SECS * 1000 {
+                    unsafe { pthread_kill(*tid, SIG_HANG) };
+                    std::thread::sleep(std::time::Duration::from_millis(5000));
+                    // (the handler ends the process; if it did not, give up loudly)
+                    unsafe { _exit(EXIT_CRASH) }
+                }
+            }
+        }
+    });
 }
 
 static CRASH_FILE: OnceLock<CString> = OnceLock::new();
@@ -44,13 +92,15 @@ extern "C" fn on_signal(sig: i32) {
 
 pub fn install(path: &str) {
     let _ = CRASH_FILE.set(CString::new(path).unwrap());
-    for sig in [11, 7, 4, 6, 8] {
+    for sig in [11, 7, 4, 6, 8, SIG_HANG] {
         unsafe { signal(sig, on_signal as usize) };
     }
+    start_watchdog();
 }
 
 /// Record what this thread is about to execute (scope, history, optional probe index).
 pub fn note(scope: &str, hist: &[Op], probe: Option<usize>) {
+    slot_set(now_ms());
     let _ = CUR.try_with(|c| {
         let buf = unsafe { &mut *c.get() };
         let mut n = 0;
